@@ -124,10 +124,10 @@ Qed.
 
 (* the keys: each key of the map exactly once *)
 Lemma keys_correct m visit : visit ≡ₚ map_to_list m →
-  keys m visit ≡ₚ (map_to_list m).*1 ∧ NoDup (keys m visit) ∧ ∀ k, k ∈ keys m visit ↔ is_Some (m !! k).
+  keys m visit ≡ₚ (map_to_list m).*1 ∧ List.NoDup (keys m visit) ∧ ∀ k, k ∈ keys m visit ↔ is_Some (m !! k).
 Proof.
   intros Hp. unfold keys. rewrite keys_loop_app. simpl. split; [by rewrite Hp|]. split.
-  - by apply (visit_NoDup_fst m).
+  - apply NoDup_ListNoDup. by apply (visit_NoDup_fst m).
   - intros k. rewrite elem_of_list_fmap. split.
     + intros [[k' v] [-> Hin]]. exists v. by apply (visit_elem m visit).
     + intros [v Hv]. exists (k, v). split; [done|]. by apply (visit_elem m visit).
